@@ -102,7 +102,7 @@ fn decode(attr: &Arc<Vec<packet::Attribute>>) -> (u32, u32, u32) {
 type Route = (Arc<Vec<packet::Attribute>>, Option<bgp::Nexthop>);
 type Mirror = BTreeMap<(u32, u32), Route>;
 
-fn apply_msg(m: &bgp::Message, mirror: &mut Mirror, un: &mut Vec<Vec<u32>>, re: &mut Vec<Vec<u32>>, eor: &mut u32) {
+fn apply_msg(m: &bgp::Message, mirror: &mut Mirror, un: &mut Vec<Vec<u32>>, re: &mut Vec<Vec<u32>>, eor: &mut Vec<u32>) {
     match m {
         bgp::Message::Update(bgp::Update::Unreach { entries, .. }) => {
             for e in entries {
@@ -124,7 +124,7 @@ fn apply_msg(m: &bgp::Message, mirror: &mut Mirror, un: &mut Vec<Vec<u32>>, re: 
                 re.push(vec![k.0, k.1, s, t, l]);
             }
         }
-        bgp::Message::Update(bgp::Update::EndOfRib(_)) => *eor += 1,
+        bgp::Message::Update(bgp::Update::EndOfRib(_)) => eor.push(re.len() as u32),
         bgp::Message::Keepalive => {}
         _ => panic!("verif: unexpected message on the wire"),
     }
@@ -225,7 +225,7 @@ struct World {
     rxbuf: bytes::BytesMut,
     peer_codec: bgp::PeerCodec,
     peer_is_ebgp: bool,
-    fifo: VecDeque<Arc<table::NlriChange>>,
+    fifo: VecDeque<ToPeerEvent>,
     mirror: Mirror,
     registered: bool,
     local: SocketAddr,
@@ -235,24 +235,37 @@ struct World {
 impl World {
     // move what the shard fanned out to the session into the local FIFO
     fn pump(&mut self) {
-        let mut batch = Vec::new();
+        let mut batch: Vec<ToPeerEvent> = Vec::new();
         if let Some(rx) = self.conn.peer_event_rx.as_mut() {
             while let Ok(ev) = rx.as_mut().try_recv() {
-                if let ToPeerEvent::NlriChange(u) = ev {
-                    batch.push(u);
-                }
+                batch.push(ev);
             }
         }
-        batch.sort_by_key(|c| net_idx(&c.net));
+        // the changes of one table operation, in prefix order (a walk comes alone)
+        batch.sort_by_key(|e| match e {
+            ToPeerEvent::NlriChange(c) => net_idx(&c.net),
+            _ => 0,
+        });
         self.fifo.extend(batch);
     }
 
+    fn queued_nets(&self) -> Vec<Val> {
+        self.fifo
+            .iter()
+            .filter_map(|e| match e {
+                ToPeerEvent::NlriChange(c) => Some(Val::n(net_idx(&c.net))),
+                ToPeerEvent::RefreshWalk { .. } => Some(Val::n(999)),
+                _ => None,
+            })
+            .collect()
+    }
+
     // flush_tx, then a KEEPALIVE as an end marker; read and decode until the marker
-    async fn flush(&mut self, mirror: &mut Mirror) -> (Vec<Vec<u32>>, Vec<Vec<u32>>, u32) {
+    async fn flush(&mut self, mirror: &mut Mirror) -> (Vec<Vec<u32>>, Vec<Vec<u32>>, Vec<u32>) {
         assert!(self.conn.flush_tx(&mut self.stream).await, "verif: flush_tx failed");
         self.conn.ctrl_msgs.push(bgp::Message::Keepalive);
         assert!(self.conn.flush_tx(&mut self.stream).await, "verif: flush_tx failed");
-        let (mut un, mut re, mut eor) = (Vec::new(), Vec::new(), 0u32);
+        let (mut un, mut re, mut eor) = (Vec::new(), Vec::new(), Vec::<u32>::new());
         let mut done = false;
         while !done {
             loop {
@@ -425,8 +438,16 @@ async fn run(case: &Val) -> Val {
                 out.push(Val::L(vec![Val::n(1)]));
             }
             4 => {
-                if let Some(c) = w.fifo.pop_front() {
-                    w.conn.handle_prefix_update(c);
+                // the two arms of run_select that take events of this kind
+                match w.fifo.pop_front() {
+                    Some(ToPeerEvent::NlriChange(c)) => w.conn.handle_prefix_update(c),
+                    Some(ToPeerEvent::RefreshWalk { family, changes, last }) => {
+                        w.conn.apply_refresh_walk(family, &changes);
+                        if last && let Some(p) = w.conn.pending.get_mut(&family) {
+                            p.schedule_eor();
+                        }
+                    }
+                    _ => {}
                 }
                 let e = w.conn.pending.get(&FAM).map(|p| p.is_empty()).unwrap_or(true);
                 out.push(Val::L(vec![Val::n(2), Val::b(e)]));
@@ -439,10 +460,10 @@ async fn run(case: &Val) -> Val {
                     Val::n(3),
                     rows(&un),
                     rows(&re),
-                    Val::n(eor),
+                    Val::L(eor.iter().map(|x| Val::n(*x)).collect()),
                     Val::L(vec![
                         mirror_rows(&w.mirror),
-                        Val::L(w.fifo.iter().map(|c| Val::n(net_idx(&c.net))).collect()),
+                        Val::L(w.queued_nets()),
                     ]),
                 ]));
             }
@@ -458,6 +479,18 @@ async fn run(case: &Val) -> Val {
                 let e = w.conn.pending.get(&FAM).map(|p| p.is_empty()).unwrap_or(true);
                 out.push(Val::L(vec![Val::n(5), Val::b(e)]));
             }
+            10 => {
+                let (t, reachable) = (op.at(1).u32(), op.at(2).bool());
+                tables.update_nexthop_validity(
+                    IpAddr::V4(Ipv4Addr::new(10, 2, 0, 1 + t as u8)),
+                    reachable,
+                );
+            }
+            11 => {
+                // the stale marking of unregister_peer (the source is not the observed neighbour)
+                tables.unregister_peer(srcs[op.at(1).usize()].remote_addr, &[], &[FAM]);
+            }
+            12 => tables.drop_stale_families(srcs[op.at(1).usize()].remote_addr, &[FAM]),
             9 => {
                 let p = if op.at(1).u32() == 0 {
                     if cfg.at(5).bool() {
@@ -485,7 +518,10 @@ async fn run(case: &Val) -> Val {
             }
             _ => panic!("verif: bad op"),
         }
-        if code <= 3 {
+        if code == 7 {
+            w.pump();
+        }
+        if code <= 3 || (10..=12).contains(&code) {
             // what the table emitted
             let mut batch = Vec::new();
             while let Ok(ev) = spy.try_recv() {
@@ -523,7 +559,7 @@ async fn run(case: &Val) -> Val {
     // final reference: a brand-new session with the same parameters, by the real
     // on_established, flushed through the socket
     let pending_empty = w.conn.pending.get(&FAM).map(|p| p.is_empty()).unwrap_or(true);
-    let chan: Vec<Val> = w.fifo.iter().map(|c| Val::n(net_idx(&c.net))).collect();
+    let chan: Vec<Val> = w.queued_nets();
     let mut fresh = Mirror::new();
     // whatever is still pending belongs to the old session
     w.establish().await;
